@@ -3,6 +3,7 @@ package ir
 import (
 	"go/types"
 	"sort"
+	"strings"
 
 	"golang.org/x/tools/go/callgraph"
 	"golang.org/x/tools/go/callgraph/cha"
@@ -410,5 +411,51 @@ func (p *P) EffectiveCallers(fn *ssa.Function, ok func(*ssa.Function) bool) []*s
 		out = append(out, f)
 	}
 	sort.Slice(out, func(i, j int) bool { return out[i].String() < out[j].String() })
+	return out
+}
+
+// CallsThrough lists the call instructions of fn that satisfy pred or that call
+// a module function (statically, at most `depth` levels down, at most 60 blocks
+// each) containing a call that does: the sites in fn through which an operation
+// is performed when a few lines were moved into a private helper.
+func CallsThrough(fn *ssa.Function, pred func(ssa.CallInstruction) bool, depth int) []ssa.CallInstruction {
+	var reaches func(h *ssa.Function, d int, seen map[*ssa.Function]bool) bool
+	reaches = func(h *ssa.Function, d int, seen map[*ssa.Function]bool) bool {
+		if h == nil || seen[h] || len(h.Blocks) == 0 || len(h.Blocks) > 60 || h.Pkg == nil || h.Pkg.Pkg == nil || !strings.HasPrefix(h.Pkg.Pkg.Path(), Mod) {
+			return false
+		}
+		seen[h] = true
+		for _, b := range h.Blocks {
+			for _, in := range b.Instrs {
+				ci, ok := in.(ssa.CallInstruction)
+				if !ok {
+					continue
+				}
+				if pred(ci) {
+					return true
+				}
+				if d > 0 && reaches(ci.Common().StaticCallee(), d-1, seen) {
+					return true
+				}
+			}
+		}
+		return false
+	}
+	var out []ssa.CallInstruction
+	for _, b := range fn.Blocks {
+		for _, in := range b.Instrs {
+			ci, ok := in.(ssa.CallInstruction)
+			if !ok {
+				continue
+			}
+			if pred(ci) {
+				out = append(out, ci)
+				continue
+			}
+			if depth > 0 && reaches(ci.Common().StaticCallee(), depth-1, map[*ssa.Function]bool{fn: true}) {
+				out = append(out, ci)
+			}
+		}
+	}
 	return out
 }
